@@ -163,7 +163,7 @@ def judge(hid, line, lifetimes, h, mline, synth_val, project="full"):
     for r in recs:
         fs = [x.split("=", 1)[1] for x in r.res.split(";") if x.startswith("foreign=")]
         if fs and fs[0] not in ("ok", "none"):
-            v = dict(case=case, what=f"a code page mapped by somebody else (over the address of a trampoline the injector had already released) is {fs[0]} at L{r.l} {r.tag}")
+            v = dict(case=case, what=f"a code page that belongs to somebody else (mapped by the harness: over a released trampoline address, next to the pages the allocator can use, ...; never named) is {fs[0]} at L{r.l} {r.tag}")
             J["c03"].append(v); J["c12"].append(v)
         if r.l != cur_l: named = set(); cur_l = r.l
         op = ops_flat.get((r.l, r.tag))
@@ -342,6 +342,8 @@ def judge(hid, line, lifetimes, h, mline, synth_val, project="full"):
                   any(len([o for o in ops if o.startswith("I:") and o.split(":")[1] == t]) > 1 for ops in lifetimes for t in set(o.split(":")[1] for o in ops if o.startswith("I:"))))
     return J
 
+MONITOR_ONLY_ABOVE = 150
+
 def check_histories(res, prop_key, n, seed, project, max_lifetimes=3, extra_lines=None, lifo=1, gen=None, novals=False, nodiff=False):
     """run n random histories (+ corpus) and fold the judgement for one property into `res`"""
     exe = reallib.build(res)
@@ -353,13 +355,17 @@ def check_histories(res, prop_key, n, seed, project, max_lifetimes=3, extra_line
         cases.append((gen or gen_history)(r, f"h{i}", max_lifetimes=max_lifetimes))
     H = run_hist(exe, [c[0] for c in cases], novals=novals, nodiff=nodiff)
     mlines, meta = [], {}
-    skipped = []
+    skipped = []; monitor_only = set()
     for line, lts in cases:
         hid = line.split()[0]
         if hid not in H: res.broke("correspondence: no output for history", line); continue
         if (H[hid].get("child") or "").startswith("skipped"): skipped.append(hid); continue
         ml, sv, addr = reallib.model_line(hid, H[hid], lts, lifo=lifo)
-        mlines.append(ml); meta[hid] = (line, lts, sv)
+        # very long lifetimes (hundreds of live fakes): the extracted model's cost grows faster than linearly with the number of live patches, so
+        # these histories are judged by the monitors alone (recorded in the evidence); shorter ones of the same shape go through the model
+        if sum(len(o) for o in lts) > MONITOR_ONLY_ABOVE: monitor_only.add(hid)
+        else: mlines.append(ml)
+        meta[hid] = (line, lts, sv)
     if skipped: res.broke(f"{len(skipped)} histories were not run because two earlier histories of their batch blocked until the watchdog killed them (signal:14)", ",".join(skipped[:20]))
     M = vlib.run_model(mlines)
     shapes = set(); crashed = 0; corr = []
@@ -368,8 +374,9 @@ def check_histories(res, prop_key, n, seed, project, max_lifetimes=3, extra_line
         shapes.add(J["shape"]); crashed += J["crashed"]
         # a history whose child died is judged by the monitors on what was observed before; the (necessarily truncated)
         # comparison with the model counts only for the properties that own crashes
-        if not (J["crashed"] and prop_key in ("c03", "c12", "c17", "c06", "c11")): corr += J["corr"]
-        if prop_key == "c05": corr += J["corr_c05"]
+        if hid in monitor_only: pass
+        elif not (J["crashed"] and prop_key in ("c03", "c12", "c17", "c06", "c11")): corr += J["corr"]
+        if prop_key == "c05" and hid not in monitor_only: corr += J["corr_c05"]
         for v in J[prop_key]:
             res.violation(v["what"], v["case"], {k: x for k, x in v.items() if k not in ("what", "case")})
     res.cov["evaluations"] += len(cases)
@@ -377,6 +384,7 @@ def check_histories(res, prop_key, n, seed, project, max_lifetimes=3, extra_line
     res.cov["distinct_nontrivial"] += len(shapes)
     res.cov["samples"] += [c[0] for c in cases[:3]]
     res.extra["crashed_histories"] = crashed
+    if monitor_only: res.extra["histories_judged_by_monitors_only"] = res.extra.get("histories_judged_by_monitors_only", 0) + len(monitor_only)
     st = dict(histories=len(cases), ops=sum(len(o) for _, l in cases for o in l), lifetimes=sum(len(l) for _, l in cases),
               repeated_target=sum(1 for s in shapes if s[2]),
               lifetimes_run_while_unwinding=sum(1 for _, l in cases for o in l if "UNWIND" in o[:2]),
